@@ -195,18 +195,20 @@ PARSER_TRUST = COMMON_TRUST + [
 ]
 PARSER_FILES = ["model/Lexer.v", "model/Parser.v", "model/GrlPrint.v", "model/CorrParse.v", "proofs/FloatLit.v", "proofs/LexProofs.v", "proofs/ParserProofs.v"]
 PROPS["C17"] = dict(
-    proof_files=PARSER_FILES + ["proofs/C17Proof.v", "props/C17.v"],
+    proof_files=PARSER_FILES + ["proofs/ParserWf.v", "proofs/C17Proof.v", "props/C17.v"],
     props_files=["props/C17.v"],
     harness="C17",
-    theorems=["C17_roundtrip_partial", "C17_roundtrip_spacing_partial", "C17_expr_roundtrip", "C17_accept", "C17_reject", "C17_string_literal"],
+    theorems=["C17_roundtrip_partial", "C17_roundtrip_spacing_partial", "C17_expr_roundtrip", "C17_accept", "C17_reject", "C17_string_literal", "C17_snapshot_link"],
     trusted=PARSER_TRUST,
     assumptions=[
         "ASCII input (bytes >= 128 outside string literals are outside the modelled domain and never generated)",
         "C17_roundtrip_partial / C17_roundtrip_spacing_partial: print_rules is one canonical spelling of the tokens (lower-case keywords, decimal integers, exact hexadecimal "
         "floats, double-quoted strings) with arbitrary white space; keyword case, comments and the other literal notations (octal / hex integers, decimal floats incl. correct "
         "rounding, single quotes) are covered by the correspondence only; the converse (every accepted text is the spelling of a well-formed tree) is not proved",
-        "third clause of the property (a rejected text does not damage what was loaded): true of the builder model by construction, "
-        "refuted on the implementation (known findings KF-C17-D10a, KF-C17-D10b); the harness keeps checking everything outside those two regions",
+        "third clause of the property (a rejected text does not damage what was loaded): holds of the builder model by construction (C17_reject) and is checked on the "
+        "implementation by the rollback oracles of the harness (rule set, snapshots, NewKnowledgeBaseInstance, StoreKnowledgeBaseToWriter and the run of the earlier rules after "
+        "every rejected text; no tolerated region since the fix 4ed034e; the former witnesses are a regression corpus that runs first)",
+        "the description of a rule is the unquoted text of its string literal (fix 12086c3); a malformed escape in it is a syntax error",
     ],
     explanation="The lexer/parser/builder model is proved to invert the printer on every well-formed rule list of any size (C17_roundtrip_partial, C17_expr_roundtrip), "
                 "to accept exactly the grammatical texts with new names and to store every rule as declared (C17_accept), to answer Err - never Panic - otherwise with the "
@@ -220,23 +222,24 @@ PROPS["C18"] = dict(
     proof_files=PARSER_FILES + ["model/JsonRule.v", "model/CorrJson.v", "proofs/JsonProofs.v", "proofs/JsonParse.v", "proofs/C18Proof.v", "props/C18.v"],
     props_files=["props/C18.v"],
     harness="C18",
-    theorems=["C18_partial", "C18_refuted_description", "C18_refuted_not", "C18_refuted_arity", "C18_malformed", "C18_string"],
+    theorems=["C18", "C18_malformed", "C18_string"],
     trusted=PARSER_TRUST + [
         "translator model coq/model/JsonRule.v (hand-written from pkg/JsonResource.go; its output is compared byte for byte with ParseJSONRule on every generated case)",
         "from-scratch evaluator coq/model/Fresh.v and the harness fact library twin Methods.v (shared with C01/C05)",
     ],
     assumptions=[
         "ASCII input; JSON numbers in the model are integers below 2^53 in magnitude (fmt.Sprint / FormatFloat print their digits); other numbers are exercised on the implementation only",
-        "C18_partial holds under wf_trule: plain-string operands are the canonical text of a well-formed atom, plain-string actions end in ';', no join operator with a single operand "
-        "(finding D14), no 'not' with several operands one of which is an operator object (D13), and/or nested at most 1000 deep, salience within 32 bits; the description is equal "
-        "modulo the escaping the listener does not undo (D12). The unrestricted statement is refuted in Coq by the three witnesses (C18_refuted_*)",
+        "theorem C18 quantifies over the typed JSON rules satisfying the decidable predicate wf_trule, which demands only: the shape every accepted rule has (identifier name, "
+        "non-empty action list, 'when' an operator object or a plain string, join operators with two or more operands, 'not' with one or more, and/or over two or more objects - the "
+        "translator or the builder reject anything else: C18_malformed, C17_reject); plain strings spelled canonically (operand = text of a well-formed atom, condition = of a "
+        "well-formed expression, action = of a well-formed statement ending in ';'); salience within 32 bits, integer constants within 64; and/or nested at most 1000 deep (the "
+        "translator stops at 1024). Name, description and salience are equal. D12, D13, D13b, D14, D15 are repaired in the engine (12086c3, 2cd0fef, eb4ea8e, e1f41de, e582254): no refutation remains",
         "encoding/json is outside the model: the harness hands the decoded JSON value to the model",
     ],
     explanation="For every well-formed typed JSON rule of any size and nesting the model translator's text is proved to be accepted by the parser model and to denote exactly the expected rule "
-                "(name, salience, escaped description, action list), whose condition has, on every fact state and for every method table, the value of the JSON operator tree with operands "
-                "grouped as nested (brackets are transparent, one-operand 'not' is negation) - C18_partial; string constants round-trip for every byte string (C18_string); missing name/when/"
-                "then, unknown operators, empty or multi-key objects and wrong set/call/compound arity are rejected (C18_malformed); the unrestricted statement is refuted by vm_compute "
-                "witnesses for D12, D13, D14. Generated typed trees (all 15 operators, set/call/obj/const, plain operands, depth <= 4) go through pkg.ParseJSONRule, a JSON resource, the "
+                "(name, salience, description, action list), whose condition has, on every fact state and for every method table, the value of the JSON operator tree with operands "
+                "grouped as nested (brackets are transparent, a lone operand of 'not' is negated, several are compared) - theorem C18; string constants round-trip for every byte string (C18_string); missing name/when/"
+                "then, unknown operators, empty or multi-key objects, one-operand binary operators and wrong set/call/compound arity are rejected (C18_malformed). Generated typed trees (all 15 operators, set/call/obj/const, plain operands, depth <= 4) go through pkg.ParseJSONRule, a JSON resource, the "
                 "real builder and FetchMatchingRules on two fact states; text, stored rule and verdicts are compared with the model and with an independent Go tree walker.",
 )
 
@@ -346,9 +349,8 @@ MANIFEST_TEXT = {
              "translated text is accepted by the parser model and denotes the rule with the same name, salience, action list and a condition whose from-scratch value equals that "
              "of the JSON operator tree grouped as nested; string constants round-trip for every byte string; malformed rules are rejected. Tied to the code by comparing the "
              "translator text byte for byte, the stored rule and FetchMatchingRules verdicts on generated trees, plus an independent Go tree walker.",
-        note="Trust: Coq kernel; hand-written translator / parser / evaluator models (validated by correspondence, not verified against Go); encoding/json; harness. Partial: the "
-             "unrestricted statement is refuted in Coq (description escaping D12, mixed 'not' D13, one-operand operators D14 - open known findings, plus D15 found by the harness); "
-             "the theorem holds under the decidable side condition wf_trule. ASCII; integer JSON numbers. No axioms (closed under the global context).",
+        note="Trust: Coq kernel; hand-written translator / parser / evaluator models (validated by correspondence, not verified against Go); encoding/json; harness. The theorem "
+             "quantifies over typed rules whose plain strings are canonically spelled well-formed GRL snippets, with and/or nesting <= 1000 and numbers in range (wf_trule). ASCII; integer JSON numbers. Axioms: Coq's primitive float / int63 operations only (the evaluator computes with them).",
         technique="Rocq/Coq proof over an executable translator + parser model (induction over JSON trees, all sizes) + differential correspondence (vm_compute) + independent tree walker",
     ),
     "C17": dict(
@@ -358,7 +360,7 @@ MANIFEST_TEXT = {
              "single-edit mutants with the real builder and comparing verdict and the snapshot of every stored rule with the model, plus direct oracles.",
         note="Trust: Coq kernel; hand-written model of grulev3.g4 + listener + RuleBuilder (that ANTLR accepts the same language is correspondence, not proof); "
              "harness. Partial: non-canonical spellings (keyword case, comments, other literal notations incl. rounding of decimal floats) are covered by correspondence only; the converse of the round trip is not proved; ASCII only. "
-             "The rollback clause is refuted on the implementation (open known findings KF-C17-D10a/b). No axioms (closed under the global context).",
+             "The rollback clause holds of the model by construction and is checked on the implementation by the rollback oracles. No axioms (closed under the global context).",
         technique="Rocq/Coq proof over an executable parser model (round trip by induction, all sizes) + mutant-based differential correspondence (vm_compute)",
     ),
     "C01": _eval_text("every execution is of an active rule whose condition, evaluated from scratch on the facts of that moment, is true (from any memory contents)."),
